@@ -267,6 +267,42 @@ func (g *sgen) file(fi int, s *Schema) *descriptorpb.FileDescriptorProto {
 	if syn != 3 && !g.o.NoExtensions {
 		fd.Extension = g.extensions(pkg, fi, syn, feat, visible, r.Intn(3))
 	}
+	// custom options: extensions of the descriptor option messages (the only
+	// extensions a proto3 file may declare)
+	if !g.o.NoExtensions && !g.o.Codegen && r.Chance(1, 3) {
+		has := false
+		for _, d := range fd.Dependency {
+			has = has || d == "google/protobuf/descriptor.proto"
+		}
+		if !has {
+			fd.Dependency = append(fd.Dependency, "google/protobuf/descriptor.proto")
+		}
+		targets := []string{"FileOptions", "MessageOptions", "FieldOptions", "EnumOptions", "EnumValueOptions", "OneofOptions", "ServiceOptions", "MethodOptions", "ExtensionRangeOptions"}
+		for i := 0; i < 1+r.Intn(3); i++ {
+			g.n++
+			x := &descriptorpb.FieldDescriptorProto{Name: proto.String(g.id("opt")), Number: proto.Int32(int32(50000 + g.n + r.Intn(1000)*1000)), Label: descriptorpb.FieldDescriptorProto_LABEL_OPTIONAL.Enum(),
+				Extendee: proto.String(".google.protobuf." + targets[r.Intn(len(targets))]), Type: sgScalarTypes[r.Intn(len(sgScalarTypes))].Enum()}
+			key := fmt.Sprintf("%s/%d", x.GetExtendee(), x.GetNumber())
+			if g.usedExt == nil {
+				g.usedExt = map[string]bool{}
+			}
+			if g.usedExt[key] {
+				continue
+			}
+			g.usedExt[key] = true
+			if r.Chance(1, 2) {
+				x.Label = descriptorpb.FieldDescriptorProto_LABEL_REPEATED.Enum()
+				t := x.GetType()
+				if syn <= 3 && t != descriptorpb.FieldDescriptorProto_TYPE_STRING && t != descriptorpb.FieldDescriptorProto_TYPE_BYTES && r.Chance(2, 3) {
+					x.Options = &descriptorpb.FieldOptions{Packed: proto.Bool(r.Bool())}
+				}
+				if syn >= 2023 && g.o.Features && t != descriptorpb.FieldDescriptorProto_TYPE_STRING && t != descriptorpb.FieldDescriptorProto_TYPE_BYTES && r.Chance(1, 2) {
+					x.Options = &descriptorpb.FieldOptions{Features: &descriptorpb.FeatureSet{RepeatedFieldEncoding: []descriptorpb.FeatureSet_RepeatedFieldEncoding{descriptorpb.FeatureSet_PACKED, descriptorpb.FeatureSet_EXPANDED}[r.Intn(2)].Enum()}}
+				}
+			}
+			fd.Extension = append(fd.Extension, x)
+		}
+	}
 	if !g.o.NoServices && r.Chance(1, 3) {
 		sv := &descriptorpb.ServiceDescriptorProto{Name: proto.String(g.id("Svc"))}
 		var cands []*sgMsg
@@ -858,4 +894,18 @@ func GenValidSchema(r *core.Rand, o SchemaOpts) (*Schema, *protoregistry.Files, 
 		last = err
 	}
 	return nil, nil, nil, 20, last
+}
+
+// RandIdent draws a protobuf identifier with underscores, digits and case changes.
+func RandIdent(r *core.Rand) string {
+	n := 1 + r.Intn(8)
+	b := make([]byte, 0, n)
+	for i := 0; i < n; i++ {
+		al := "abcxyzABXY__019"
+		if i == 0 {
+			al = "abcxyzABXY_"
+		}
+		b = append(b, al[r.Intn(len(al))])
+	}
+	return string(b)
 }
